@@ -39,7 +39,15 @@ prints:
 * `C16_hcl_file_agrees`       end to end: whenever the HCL file evaluates to a description `d` (without a `<<` map key),
                                the HCL front-end on the FILE and the YAML front-end on `d` written in YAML agree;
 * `C16_ammo_identical`        the ammo both providers build (`decodeAmmo`: scenarios spread by weight, steps resolved
-                               by name with multipliers and sleeps) is the same for both front-ends.
+                               by name with multipliers and sleeps) is the same for both front-ends;
+                               `C16_any_reader_agrees`: so is any function of the decoded record;
+* `C16_functions_distinguished`, `C16_index_refines_element`   any two registered functions are told apart by a witness
+                               call that the harness spells in a file on every run (a slip in the function table has a
+                               concrete failing input);
+* `C16_unevaluated_local_refuses`, `C16_errors_propagated`   a `locals` block that does not evaluate refuses the file even
+                               when nothing uses it; in the current source no error between file and `AmmoConfig` is
+                               swallowed and no block / attribute is skipped (regenerated `errFlow`, loop facts);
+* `C16_readers_nil_blind`     no reader of `AmmoConfig` tells a nil collection from an empty one (regenerated).
 
 What a YAML scalar's characters go through inside yaml.v2 / hcl (quoting, escapes, NFC normalisation of HCL strings)
 is library behaviour: tied by the differential harness only (see notes/C16.md).
@@ -202,6 +210,15 @@ theorem C16_hcl_file_agrees (f : HclFile) (d : V) (h : hclDescription current fn
   rw [h1]
   exact C16_paths_agree_partial d hm
 
+/-- every description in the form the HCL structs hold it (strings where strings are expected …: a fixed point of the
+conversion) IS expressible as an HCL file — the one that spells it with literals only — and that file denotes it, for
+any function table: the hypothesis of `C16_hcl_file_agrees` is met by all of them -/
+theorem C16_literal_file_denotes (T : Tables) (F : List (String × String)) (d : V)
+    (h : coerceV T (.struct T.hclRoot) d = some d) :
+    hclDescription T F ⟨[], quote d⟩ = some d := by
+  unfold hclDescription evalFile
+  simp [evalLocals, eval_quote, h]
+
 /-- a file whose locals or expressions do not evaluate is refused as a whole (nothing half-evaluated is converted) -/
 theorem C16_hcl_file_refused (f : HclFile) (h : evalFile fns f = none) :
     hclFilePath current fns f = .refused := by
@@ -276,6 +293,14 @@ multipliers and sleeps) is the same for the HCL structs marshalled by yaml.v2 an
 for all compatible tables and every description -/
 theorem C16_ammo_identical (T : Tables) (u : List String) (hc : compat T u = true) (d : V) :
     ammoOf (decode T (marshal T (complete T d))) = ammoOf (decode T (yamlDoc T d)) := by
+  rw [C16_equiv_complete T u hc]
+
+/-- not only the ammo model above: WHATEVER a provider computes from the decoded record (any function of it) is the same
+for both front-ends — the record itself is the same; together with `C16_readers_nil_blind` (no reader tells nil from
+empty, the one thing the record does not carry) the equality of the ammo does not rest on the ammo model -/
+theorem C16_any_reader_agrees {α : Type} (reader : Option V → α) (T : Tables) (u : List String)
+    (hc : compat T u = true) (d : V) :
+    reader (decode T (marshal T (complete T d))) = reader (decode T (yamlDoc T d)) := by
   rw [C16_equiv_complete T u hc]
 
 /-- the instance for the current source -/
@@ -457,6 +482,15 @@ example : hclDescription current fns
        ("variables", .map [("port", .idx (.loc "o") (.str "port")), ("host", .idx (.loc "t") (.int 1)), ("b", .bool true)])]])]⟩ =
     some (.map [("variable_source", .seq [.map [("name", .str "v"), ("type", .str "variables"),
        ("variables", .map [("port", .str "8090"), ("host", .str "localhost"), ("b", .str "true")])]])]) := by rfl
+
+/-- the hypothesis of `C16_literal_file_denotes` is met by `sample`-like descriptions: the documentation's request -/
+example : coerceV current (.struct current.hclRoot)
+    (.map [("request", .seq [.map [("name", .str "r"), ("method", .str "GET"), ("uri", .str "/"),
+      ("headers", .map [("Useragent", .str "Yandex")]), ("body", .str "")]]),
+      ("scenario", .seq [.map [("name", .str "s"), ("weight", .int 2), ("requests", .seq [.str "r(2)"])]])]) =
+    some (.map [("request", .seq [.map [("name", .str "r"), ("method", .str "GET"), ("uri", .str "/"),
+      ("headers", .map [("Useragent", .str "Yandex")]), ("body", .str "")]]),
+      ("scenario", .seq [.map [("name", .str "s"), ("weight", .int 2), ("requests", .seq [.str "r(2)"])]])]) := by rfl
 
 /-- a required argument left out (`request "r" {}` without `method`), an argument the struct does not have, a list
 where a string is expected: refused -/
